@@ -119,8 +119,7 @@ class Engine:
         nb_of_processes = self.configuration.nb_of_processes
 
         if nb_of_processes == 1:
-            # single process version
-            self.configuration.initialisation_seed()
+            # single process version (the generators are seeded once per run, in price())
             for iteration in range(extra_mc_paths):
                 simulated_path = simulation_path()
                 path_manager.set_to_path(simulated_path)
@@ -161,6 +160,9 @@ class Engine:
         :param product: product to price
         :param rmse: root-mean square error
         """
+        if self.configuration.nb_of_processes == 1:
+            # seed once per run, before any random draw: re-seeding at every level and pass replays the same variates
+            self.configuration.initialisation_seed()
         self.initialisation(product)
 
         for path_manager in self.path_managers:
@@ -304,6 +306,8 @@ class Engine:
         """
         mc_paths = self.configuration.initial_mc_paths
         max_level = self.configuration.maximum_level
+        if self.configuration.nb_of_processes == 1:
+            self.configuration.initialisation_seed()
         self.initialisation(product)
         for path_manager in self.path_managers:
             path_manager.update(
